@@ -334,6 +334,9 @@ const TimerDuration = 15 * time.Millisecond
 func TimerPending() bool { return true }
 func FireTimer() bool    { time.Sleep(3 * TimerDuration); checkSide(); return true }
 
+// WakeSleepers lets goroutines blocked in time.Sleep continue (natively: nothing to do, time passes).
+func WakeSleepers() {}
+
 // Track registers an object graph for the engine's lockset (data race) analysis; RaceFree reports the result.
 func Track(obj any)   {}
 func RaceFree() bool { return true }
